@@ -240,12 +240,13 @@ def run(ck, m):
     ck.expect(n_ctl >= 12, f"iterm2 renderer: expected >= 12 (case, image command) pairs, found {n_ctl}")
     # strips: PIL.Image.frombytes(mode, (w, h), <raw>.read(n)) with n == w * h * len(mode), h == pixel height // rendered height
     fbs = [c for c in body_walk(ir) if isinstance(c, ast.Call) and norm(c.func).endswith("Image.frombytes")]
-    ck.expect(len(fbs) == 1 and len(fbs[0].args) == 3 and isinstance(fbs[0].args[1], ast.Tuple) and len(fbs[0].args[1].elts) == 2, "iterm2 renderer: the per-strip PIL.Image.frombytes(mode, (w, h), data) not recognised")
-    if len(fbs) == 1 and len(fbs[0].args) == 3 and isinstance(fbs[0].args[1], ast.Tuple) and len(fbs[0].args[1].elts) == 2:
+    # `img` is rebound by the per-strip `with ... as img`; it is compared as a symbol (the strips have the mode of the whole image)
+    ivar = "img"
+    sz_t = trace(ir, fbs[0].args[1], keep=(ivar,)) if len(fbs) == 1 and len(fbs[0].args) == 3 else None
+    ck.expect(sz_t is not None and isinstance(sz_t, ast.Tuple) and len(sz_t.elts) == 2, "iterm2 renderer: the per-strip PIL.Image.frombytes(mode, (w, h), data) not recognised")
+    if sz_t is not None and isinstance(sz_t, ast.Tuple) and len(sz_t.elts) == 2:
         fb = fbs[0]
-        # `img` is rebound by the per-strip `with ... as img`; it is compared as a symbol (the strips have the mode of the whole image)
-        ivar = next((n.id for n in ast.walk(fb.args[0]) if isinstance(n, ast.Name)), "img")
-        mode_t, w_t, h_t = trace(ir, fb.args[0], keep=(ivar,)), trace(ir, fb.args[1].elts[0], keep=(ivar,)), trace(ir, fb.args[1].elts[1], keep=(ivar,))
+        mode_t, w_t, h_t = trace(ir, fb.args[0], keep=(ivar,)), sz_t.elts[0], sz_t.elts[1]
         data_t = trace(ir, fb.args[2], keep=(ivar,))
         b_ = match_expr("$raw.read($n)", data_t)
         try:
